@@ -220,7 +220,10 @@ where
     #[allow(clippy::should_implement_trait)]
     #[inline]
     pub fn next(&mut self) -> Option<Result<(&mut R, O), E>> {
-        self.done_recv.recv().unwrap().map(move |result| {
+        // If the channel was closed without the end marker having been sent, the reader
+        // thread has stopped prematurely: `reader_init` failed (`read_parallel_init`
+        // returns this error after the closure has finished). Nothing more will arrive.
+        self.done_recv.recv().ok()?.map(move |result| {
             match result {
                 Ok((r, o)) => {
                     let prev_rset = ::std::mem::replace(&mut self.current_recordset, r);
